@@ -11,7 +11,8 @@ usage: automutate.py gen | stage1 [lanes] | stage2 [lanes] [max] | report
 Results: /tmp/automut/results.json (kept between calls, so the stages can be resumed)."""
 import json, os, random, shutil, subprocess, sys, concurrent.futures as cf, threading
 VERIF = os.path.dirname(os.path.dirname(os.path.abspath(__file__)))
-OUT = "/tmp/automut"; LANES = "/tmp/vma"; RES = os.path.join(OUT, "results.json")
+SET = os.environ.get("AUTOMUT_SET", "1")      # operator set of go/mutgen (1: one-token operators, 2: statement-level operators)
+OUT = "/tmp/automut" + ("" if SET == "1" else SET); LANES = "/tmp/vma"; RES = os.path.join(OUT, "results.json")
 ENV = dict(os.environ, GOFLAGS="-mod=mod", GOPROXY="off"); ENV.pop("GOSUMDB", None)
 lock = threading.Lock()
 
@@ -134,7 +135,7 @@ def main():
     cmd = sys.argv[1]
     if cmd == "gen":
         shutil.rmtree(OUT, ignore_errors=True); os.makedirs(OUT)
-        rc, out = sh("go build -o /tmp/mutgen . && /tmp/mutgen -repo /repo -out %s" % OUT, os.path.join(VERIF, "go", "mutgen"))
+        rc, out = sh("go build -o /tmp/mutgen . && /tmp/mutgen -repo /repo -set %s -out %s" % (SET, OUT), os.path.join(VERIF, "go", "mutgen"))
         print(out)
     elif cmd == "stage1":
         lanes = int(sys.argv[2]) if len(sys.argv) > 2 else 8
